@@ -236,7 +236,7 @@ type Family struct {
 // SibGroup is one generalised function with its per-member declarations.
 type SibGroup struct {
 	Family *Family
-	Key    string // generalised key, e.g. "interpreter.(§0Value).Plus"
+	Key    string                 // generalised key, e.g. "interpreter.(§0Value).Plus"
 	Decls  map[string]*types.Func // by member tag
 }
 
